@@ -101,14 +101,12 @@ def main(argv):
                              'trace': traceback.format_exc()[-2000:]})
 
     # ---- 1. proofs
-    ok, log = C.coq_build()
+    dirs = ['Base'] + list(getattr(mod, 'COQ_DIRS', [pid]))
+    ok, log = C.coq_build(dirs)
     if not ok:
-        # build as much as possible so that the model/spec can still be evaluated
-        C.sh('make -k -j16', C.MAKE_TIMEOUT, cwd=C.COQ)
         failing = [l for l in log.splitlines() if 'Error' in l or l.startswith('File ')][-12:]
         problems.append({'kind': 'proof', 'what': 'the Coq development no longer builds',
                          'detail': failing, 'log_tail': log[-3000:]})
-    dirs = ['Base'] + list(getattr(mod, 'COQ_DIRS', [pid]))
     n_obl, obl_names = C.count_obligations(dirs)
     assum, aerr = C.print_assumptions(pid)
     if assum is None:
@@ -200,7 +198,7 @@ def main(argv):
         'coverage': {
             'obligations': n_obl,
             'discharged': n_obl if ok and assum is not None and not forb else 0,
-            'checker_cmd': 'cd /verif/coq && coq_makefile -f _CoqProject -o Makefile && make -j16  (then coqc %s/Property.v for Print Assumptions)' % pid,
+            'checker_cmd': 'cd /verif/coq && coqc -Q . TM <each file of Base/ and %s/ in coqdep order> (full .vo); coqc %s/Property.v for Print Assumptions; ./setup.sh builds everything with coq_makefile+make' % (pid, pid),
             'trusted_base': trusted,
             'evaluations': len(inputs),
             'distinct_nontrivial': len(nontriv),
